@@ -55,6 +55,14 @@ type Prop struct {
 	Correspondence string
 	// Extra is called once after the run for property-specific extra evidence (may be nil).
 	Extra func(tier string, seed int64) map[string]any
+	// Tolerable reports whether a difference between the implementation's and the model's observation of a
+	// case lies entirely OUTSIDE what the property's statement constrains (the wording of a message, a header
+	// the property does not speak about, which error status refuses a request, a configuration the property's
+	// quantifier excludes).  The model mirrors more of the code than the property needs; such a difference is
+	// "model drift": counted, sampled into the evidence and printed as a MODEL-DRIFT note, but it is not a
+	// broken correspondence — the part of the observation the theorems' conclusions speak about still agrees.
+	// nil: every difference counts.  The model-free oracle is applied regardless.
+	Tolerable func(c any, implObs, modelObs string) bool
 }
 
 var registry = map[string]*Prop{}
@@ -236,14 +244,28 @@ func evalCase(p *Prop, c any) (Result, string) {
 	return r, modelOne(p.ID, r.Ops)
 }
 
-func failKind(r Result, m string) string {
+// failKind: "oracle" (the property itself fails on the real code), "tie" (model and implementation disagree
+// on something the property constrains), "drift" (they disagree only outside it: not a failure), "".
+func failKind(p *Prop, c any, r Result, m string) string {
 	if r.Oracle != "" {
 		return "oracle"
 	}
 	if r.Ops != "" && r.Obs != m {
+		if p.Tolerable != nil && m != "model-error" && tolerable(p, c, r.Obs, m) {
+			return "drift"
+		}
 		return "tie"
 	}
 	return ""
+}
+
+func tolerable(p *Prop, c any, impl, model string) (ok bool) {
+	defer func() {
+		if recover() != nil {
+			ok = false
+		}
+	}()
+	return p.Tolerable(c, impl, model)
 }
 
 func caseJSON(c any) json.RawMessage {
@@ -308,6 +330,8 @@ func check(p *Prop, o options) int {
 	distinct := map[string]bool{}
 	var fails []failure
 	compared := 0
+	drift := 0
+	var driftSamples []any
 	for i, r := range results {
 		for _, t := range r.Tags {
 			tags[t]++
@@ -322,7 +346,12 @@ func check(p *Prop, o options) int {
 		if r.Ops != "" {
 			compared++
 		}
-		if k := failKind(r, modelObs[i]); k != "" {
+		if k := failKind(p, cases[i], r, modelObs[i]); k == "drift" {
+			drift++
+			if len(driftSamples) < 5 {
+				driftSamples = append(driftSamples, map[string]any{"case": caseJSON(cases[i]), "ops": r.Ops, "impl_obs": r.Obs, "model_obs": modelObs[i]})
+			}
+		} else if k != "" {
 			fails = append(fails, failure{i, cases[i], r, modelObs[i], k})
 		}
 	}
@@ -405,6 +434,9 @@ func check(p *Prop, o options) int {
 	for _, l := range violationLines {
 		fmt.Println(l)
 	}
+	if drift > 0 {
+		fmt.Printf("MODEL-DRIFT: property=%s %d cases where the implementation differs from the Lean model only in details the property does not constrain (samples in the evidence); not a violation\n", p.ID, drift)
+	}
 
 	// samples
 	var samples []any
@@ -426,6 +458,8 @@ func check(p *Prop, o options) int {
 		"tags":                          tags,
 		"samples":                       samples,
 		"violations":                    violations,
+		"model_drift_outside_property":  drift,
+		"model_drift_samples":           driftSamples,
 		"correspondence":                p.Correspondence,
 		"harness_wall_s":                time.Since(start).Seconds(),
 	}
@@ -448,7 +482,7 @@ func check(p *Prop, o options) int {
 
 func stillFails(p *Prop, c any, kind string, known map[string]finding) (failure, bool) {
 	r, m := evalCase(p, c)
-	k := failKind(r, m)
+	k := failKind(p, c, r, m)
 	if k == "" || k != kind {
 		return failure{}, false
 	}
@@ -529,7 +563,10 @@ func replay(p *Prop, o options) int {
 	fmt.Println("impl obs: ", r.Obs)
 	fmt.Println("model obs:", m)
 	fmt.Println("oracle:   ", r.Oracle)
-	if k := failKind(r, m); k != "" {
+	if k := failKind(p, c, r, m); k == "drift" {
+		fmt.Println("model drift outside the property (not a failure)")
+		return 0
+	} else if k != "" {
 		known := loadFindings(filepath.Join(o.verifDir, "known-findings.jsonl"), p.ID)
 		if p.Known != nil {
 			if id := p.Known(c, r, m); id != "" && known[id].Status == "known" {
